@@ -44,6 +44,7 @@ def check(run):
         c09.table_writer_rule(run, ast, r6)
         run.rule("C01-slots", "a v-table cell belongs to one method parameter: a slot taken in a class is reserved in all its transitive bases and marked used in all covariant classes", floor=4)
         crules.reserve_rules(run, "C01-slots", ast)
+        crules.alloc_rules(run, "C01-slots", ast)
     run.assumptions += ["v-table pointer acquisition (Policy::dynamic_vptr, virtual_ptr::_vptr) is an opaque leaf here; its content is decided by C09 / C15",
                         "the tables themselves (which definition sits in which cell) are values computed by update: not decided"]
     return run.finish(level="other", explanation="Symbolic summary (LLVM IR after mem2reg, library calls substituted) of the function pointer that "
